@@ -78,6 +78,10 @@ CHECKS = {
    text="Per abstract scheduler state the real treat_output stores new paths before deleting anything, writes data rows afterwards and the restart file last, exactly once; write_toml replaces restart.toml atomically (defect repaired: fix b38bdcb); deletions never touch paths of the previous restart's active list. The lemma 'every effect prefix is restartable' is replayed by killing the real main process before every file-system effect of a 3-step TurtleMD run (every 3rd in quick) and restarting: loads, finishes, no lost files. Known finding: data row duplicated after a redo.",
    note="POSIX rename atomicity and program-order persistence assumed; 1 worker, single crash, engines' own files out of reach; the fault-injection part is bounded and labelled so.",
    design="5/C08"),
+ "C06": dict(level="other", technique="restart-state obligations on the real code (pick_lock re-issue and probability-cache coherence via the symnp harness per abstract state; random-number state on real numpy); byte identity itself replayed natively on a BOUNDED grid",
+   text="Decided: the restart restores the random-number state (entropy = seed, spawn counter, bit-generator state), pick_lock re-issues exactly the recorded in-flight jobs in order and keeps them recorded, the cached probability matrix always belongs to the current state after a step, and load_paths recomputes the same weights the running simulation computed (incl. cap 0.0). Two defects repaired (421ef4c, 01e284c). Byte identity of data/restart/order files for k + restart vs one go is replayed for seeds {7} (quick) / {0,7,123} (thorough) and all split points of a 5-step wire-fencing run.",
+   note="Byte identity over all seeds/splits is not decidable by contracts (bit generators, TOML, float text): bounded replay only; max-OP column compared to 1e-5 as the property's six-decimal scope allows; allowmaxlength = true.",
+   design="5/C06"),
 }
 NA = {
  "C01": "statistical convergence of an estimator over random histories; no pre/postcondition, invariant or lemma over function contracts expresses or decides it (DESIGN 5/C01). Its deterministic ingredients are decided under C02, C04, C09, C10.",
